@@ -77,6 +77,7 @@ class PathNode:
         filename: str = None,
         path: str = None,
         length: int = None,
+        pad: bool = False,
     ):
         """
         Hold file information that contributes to the contents of torrent.
@@ -95,7 +96,10 @@ class PathNode:
             parent path, by default None
         length : int, optional
             size, by default None
+        pad : bool, optional
+            padding entry (stands for zero bytes, no file), by default False
         """
+        self.pad = pad
         self.path = path
         self.start = start
         self.stop = stop
@@ -117,6 +121,9 @@ class PathNode:
         bytes
             part of the file's contents
         """
+        if self.pad:
+            stop = self.length if self.stop == -1 else self.stop
+            return bytes(stop - (self.start or 0))
         with open(path, "rb") as fd:
             if self.start:
                 fd.seek(self.start)
@@ -192,6 +199,10 @@ class PieceNode:
             piece_hash = sha1(data).digest()  # nosec
             return piece_hash == self.piece
         pathnode = paths[0]
+        if pathnode.pad:
+            # padding entries stand for zeros, there is no file to look for
+            partial = pathnode.get_part(None)
+            return self._find_matches(filemap, paths[1:], data + partial)
         filename = pathnode.filename
         if filename not in filemap:
             return False  # pragma: nocover
@@ -288,14 +299,17 @@ class Metadata(CbMixin, ProgMixin):
             for f in info["files"]:
                 path = f["path"]
                 full = os.path.join(self.name, *path)
+                pad = "p" in str(f.get("attr", ""))
                 self.files.append({
                     "path": Path(full).parent,
                     "filename": path[-1],
                     "full": full,
                     "length": f["length"],
+                    "pad": pad,
                 })
                 self.length += f["length"]
-                self.filenames.add(path[-1])
+                if not pad:
+                    self.filenames.add(path[-1])
 
     def _map_pieces(self):
         """
@@ -393,6 +407,8 @@ class Metadata(CbMixin, ProgMixin):
                 continue
             if piece_node.find_matches(filemap, dest):
                 for pathnode in paths:
+                    if pathnode.pad:
+                        continue
                     if pathnode.full not in copied:
                         copied.append(pathnode.full)
                         dest_path = os.path.join(dest, pathnode.path)
